@@ -521,10 +521,11 @@ def replay(cex):
         return False, 'EpsAlg equals the Shanks entry on the candidate sequences'
     if kind == 'dea_div':
         limexp = cex.get('limexp') or cex['config']['limexp']
-        fails = concrete_failures(limexp)
-        if 'non-finite' in fails:
-            fam, i, detail = fails['non-finite']
-            return True, 'Dea(limexp=%d) on family %s: %s' % (limexp, fam, detail)
+        for le in [limexp] + [v for v in (3, 5, 7, 9, 11) if v != limexp]:
+            fails = concrete_failures(le)
+            if 'non-finite' in fails:
+                fam, i, detail = fails['non-finite']
+                return True, 'Dea(limexp=%d) on family %s: %s' % (le, fam, detail)
         return None, 'a division by a possibly vanishing table difference is reachable in the control graph but no sequence family produced a non-finite value'
     if kind in ('dea_edge', 'dea_floor'):
         limexp = cex.get('limexp') or cex['config']['limexp']
